@@ -67,6 +67,23 @@ CHECKS["C17"] = ("Find", "TLC model check of the upward walk as a state machine 
                  "<= 2 (quick) / <= 3 plus sampled depth 4 (thorough) x start x stop is built for real and searched in a watched child process; TLC "
                  "evaluates Conforms_C17 on every record.", TB + "a call not returning within 1.5 s is a hang; nothing named spokfile above the sandbox.", "5 C17")
 
+SYNTB = TB + ("white space between generated tokens is ASCII; hex-encoded strings compared byte for byte; a parse not returning in 3 s is a hang. ")
+SYNTECH = ("input spaces generated from TLA+ models (SpokSyntax generative grammar rendered by TLC with the token stream and tree each text denotes; "
+           "LexSM/ParseSM state machines) plus bounded-exhaustive class-alphabet strings, repo spokfiles and all truncations, loose layouts; real "
+           "lexer/parser/printer run on every input; TLC evaluates the SyntaxJudge relation")
+for _pid, _txt in (
+    ("C06", "AstEq_C06: the parse tree equals the structure the text was written from, for every structure x layout"),
+    ("C16", "Tiles_C16: token values are the input slices at their offsets, non-overlapping, only white space between, exact line numbers, finite, EOF at the end"),
+    ("C08", "Total_C08: no panic / hang / crash, a second parse gives the identical result, every error cites a line within the input and quotes it"),
+    ("C07", "SemEq_C07: the formatted text parses and defines the same variables and tasks in the same order"),
+    ("C11", "Idem_C11: formatting the formatted text returns it byte for byte"),
+    ("C15", "Kept_C15: the sequence of non-empty comments, assignments and tasks-with-docstring is unchanged by formatting")):
+    CHECKS[_pid] = ("SpokSyntax", SYNTECH,
+                    "SpokSyntax.tla renders abstract spokfiles in every layout with up to two deviations from the default (small structures) and in random "
+                    "layouts (thousands of random structures), stating the denoted token stream and tree; together with every string over the 25-class lexer "
+                    "alphabet up to the tier's bound, the repository's spokfiles with every truncation, truncations of generated programs and loose layouts "
+                    "they are fed to the real lexer, parser and printer in watched child processes. TLC evaluates " + _txt + ".", SYNTB, "5 " + _pid)
+
 NOT_YET = {}
 
 
